@@ -213,3 +213,38 @@ func TestC05Held(t *testing.T) {
 	runSimCheck(t, "C05", "retransmissions around a held file that is superseded by a new version (E-HIST)", files, alphabet, c05Check, depth,
 		fmt.Sprintf("all histories up to length %d over: file p (1 part), file b version 1 (1 part, predecessor p) and, after it, version 2 (2 parts); every part up to twice, one poll, orderly restart, clock +10 s / +25 h, cache ageing", depth))
 }
+
+// TestC05Versions: two versions of one name (no predecessor) delivered one after the other, then
+// retransmissions of the latest one around a restart / cache ageing.
+func TestC05Versions(t *testing.T) {
+	files := []*sFile{
+		{Key: "v1", Name: "b", Data: "CCCCDD", Cuts: []int64{0, 6}},
+		{Key: "v2", Name: "b", Data: "ccccdd", Cuts: []int64{0, 4, 6}, TimeOff: 60},
+	}
+	alphabet := func(hist []sAction) []sAction {
+		var out []sAction
+		v1done := histCount(hist, "recv", "v1", 0) > 0
+		for _, f := range files {
+			if f.Key == "v2" && !v1done {
+				continue
+			}
+			for p := 0; p < len(f.Cuts)-1; p++ {
+				if histCount(hist, "recv", f.Key, p) < 2 {
+					out = append(out, sAction{Op: "recv", F: f.Key, P: p})
+				}
+			}
+		}
+		for _, op := range []string{"restart", "adv25h", "age"} {
+			if histCount(hist, op, "", 0) < 1 {
+				out = append(out, sAction{Op: op})
+			}
+		}
+		return out
+	}
+	depth := 7
+	if vh.Thorough() {
+		depth = 9
+	}
+	runSimCheck(t, "C05", "retransmissions of the latest of two versions of a name (E-HIST)", files, alphabet, c05Check, depth,
+		fmt.Sprintf("all histories up to length %d over two versions of one name (1 and 2 parts, the second after the first): every part up to twice, orderly restart, clock +25 h, cache ageing", depth))
+}
